@@ -229,6 +229,7 @@ def rdscript_from_dict(d, base_path=None) :
         ["sampling_policy", "sampling policy"],
         ["sampling_interval", "sampling interval"],
         ["rng_seed", "rng seed", "seed"],
+        ["init_state_processing", "init state processing"],
         ["units", "units_system", "units system", "u"]
         ])
     
@@ -268,6 +269,7 @@ def rdscript_from_dict(d, base_path=None) :
     if "sampling_policy"   in d : da["sampling_policy"]   = d["sampling_policy"]
     if "sampling_interval" in d : da["sampling_interval"] = d["sampling_interval"]
     if "rng_seed"          in d : da["rng_seed"]          = d["rng_seed"]
+    if "init_state_processing" in d : da["init_state_processing"] = d["init_state_processing"]
     
     return RDScript(**da)
         
@@ -284,6 +286,7 @@ def rdscript_to_dict(script) :
         "sampling_policy"   : script.sampling_policy,
         "sampling_interval" : str(script.sampling_interval),
         "rng_seed"          : script.rng_seed,
+        "init_state_processing" : script.init_state_processing,
         "units"             : unitssystem_to_dict(script.units_system)
         }
     
